@@ -13,6 +13,7 @@
    | every selected handler has completed against the final state        | C03_converges (served), C03_served_exactly_once                   | full for the handlers pending when failures stop; handlers finished earlier in an open cycle: F13 |
    | last-handled state equals that state, no progress records remain    | C03_converges; C03_closing_sound, C03_not_closed_before_done      | full |
    | the framework itself stops writing                                  | C03_stops_writing, C03_rest_is_stable, C03_fixpoint_sound_partial | full (a settled view yields no patch; at rest no operator step is enabled) |
+   | a deletion as the outstanding change: every selected deletion handler completes before the object is let go | Props/C06.v (release decision: C06_release_only_if, C06_not_released_early_partial, C06_released_eventually); here: monitor deletion-handler-incomplete on the real operator over the deletion scenario family (several deletion handlers, zero-delay retries, restarts mid-deletion) | monitored here, proved under C06 |
    | a cycle that leaves something outstanding re-triggers itself        | C03_unfinished_cycle_retriggers, C03_quiet_only_when_done, C03_progress | full (function level: also the zero-delay touch) |
    | for every interleaving / delivery timing (quantifier)               | label lists of the LTS are universally quantified in the safety theorems; liveness is for the forced schedule of the calm phase (one FIFO worker: the schedule is forced) | deletion, resume handlers, filters, latency > 0: monitored on the real operator only |
    Hypotheses are met by the real operator: C03_calm_checkable + the calm-state count in the evidence. *)
